@@ -221,6 +221,8 @@ pub fn hx_plan(prop: &'static str, tier: &str) -> Vec<HxCfg> {
         "C05" => {
             let t = |mut c: HxCfg| {
                 c.track_returned = true;
+                // the graph handed over to an object that has lived before (own allocator position)
+                c.clone_from_swap = c.clone_swap;
                 c
             };
             if quick(tier) {
@@ -275,6 +277,7 @@ pub fn hx_plan(prop: &'static str, tier: &str) -> Vec<HxCfg> {
         "C10" => {
             let c = |mut c: HxCfg| {
                 c.clone_swap = true;
+                c.clone_from_swap = true;
                 c.probes.clone = true;
                 c
             };
@@ -402,6 +405,14 @@ pub fn run_hx_prop(prop: &'static str, tier: &str) -> Outcome {
                 Ok(true) => {
                     if !failures.iter().any(|f: &Failure| f.signature == format!("hx:{}", v.kind)) {
                         failures.push(report::hx_failure(cfg, v));
+                    }
+                }
+                Ok(false) if { crate::dirty::failing_calls(); let again = crate::replay::replay_hx_violation(cfg, v); crate::dirty::mark_clean(); again == Ok(true) } => {
+                    // reproduces only right after failing calls on unrelated objects in the same thread
+                    let mut v2 = v.clone();
+                    v2.detail = format!("{} - this shows only when calls that FAIL on unrelated graphs and values (harness/src/dirty.rs) came before in the same thread: some state outside the graph survives a failed call", v.detail);
+                    if !failures.iter().any(|f: &Failure| f.signature == format!("hx:{}", v.kind)) {
+                        failures.push(report::hx_failure(cfg, &v2));
                     }
                 }
                 Ok(false) if prop == "C19" => {
